@@ -1,8 +1,8 @@
 (* C06 — rolled-back work leaves no versioning trace, on disk or in memory.
-   PARTIAL in two respects: (1) process death is decided by the database's journal, not by this
-   package: the model has an atomic database by assumption; (2) the savepoint clause is refuted for
-   the code as it is (open finding, Refuted/C06_refuted.v) and proved only for savepoints whose
-   inner work leaves the unit of work unchanged. *)
+   PARTIAL in one respect: process death is decided by the database's journal, not by this package:
+   the model has an atomic database by assumption.  The savepoint clause used to be refuted for the
+   code (F-C06-savepoint-inner-flush); since its repair the unit of work is brought back when a
+   nested transaction is rolled back and the clause is proved in full. *)
 From Continuum Require Import Model.Base Model.VTable Model.Core Model.Savepoint
      Proofs.CoreP Proofs.CoreChainP Proofs.RollbackP Proofs.SavepointP
      Model.Manager Proofs.ManagerP Gen.ManagerGen Proofs.ManagerGenP.
@@ -22,27 +22,27 @@ Theorem C06_as_if_never_attempted : forall g p1 failed rest,
   run g (p1 ++ failed ++ [Rollback] ++ rest) = run g (p1 ++ rest).
 Proof. exact as_if_never_attempted_reachable. Qed.
 
-(* savepoints: the database part is restored exactly ... *)
-Theorem C06_savepoint_database_restored : forall g m evs,
+(* savepoints: rolling a savepoint back restores the database AND the unit of work (transaction
+   object, operations, pending statements, version objects) to what they were when it began ... *)
+Theorem C06_savepoint_restores : forall g m evs,
   inner_ok evs ->
   let m' := mstep g (fold_left (mstep g) (map MCore evs) (mstep g m SpBegin)) SpRollback in
-  s_db (m_core m') = s_db (m_core m) /\ m_sps m' = m_sps m /\
-  s_committed (m_core m') = s_committed (m_core (fold_left (mstep g) (map MCore evs) (mstep g m SpBegin))).
-Proof. exact savepoint_rollback_restores_database. Qed.
+  s_db (m_core m') = s_db (m_core m) /\ s_uow (m_core m') = s_uow (m_core m) /\
+  s_committed (m_core m') = s_committed (m_core m) /\ m_sps m' = m_sps m.
+Proof. exact savepoint_rollback_restores. Qed.
 
-(* ... and the whole state when the inner work did not touch the unit of work *)
-Theorem C06_savepoint_partial : forall g m evs,
+(* ... so the whole state is as if the work inside had never been attempted (the package raises no
+   error of its own in a reachable state of a consistent configuration: C07_versioning_never_raises) *)
+Theorem C06_savepoint_as_if_never_attempted : forall g m evs,
   inner_ok evs ->
-  s_uow (fold_left (step g) evs (m_core m)) = s_uow (m_core m) ->
   s_err (fold_left (step g) evs (m_core m)) = s_err (m_core m) ->
-  s_committed (fold_left (step g) evs (m_core m)) = s_committed (m_core m) ->
   mstep g (fold_left (mstep g) (map MCore evs) (mstep g m SpBegin)) SpRollback = m.
-Proof. exact savepoint_rollback_partial. Qed.
+Proof. exact savepoint_rollback_full. Qed.
 
 (* in memory: after the rollback of its transaction a session has neither a unit of work nor a map
    entry (Layer M), and the clean-up functions of the model are the code itself - generated from the
    current manager.py on every build (Gen/ManagerGen.v).  Inside a savepoint clear() does nothing,
-   which is the root of the open savepoint finding. *)
+   savepoints are handled by the savepoint listeners instead (Model/Savepoint.v). *)
 Theorem C06_no_state_left_in_memory : forall dbapi closed conn_of,
   forall g G s, owns conn_of s -> smap_ok conn_of G ->
   let G' := gstep dbapi closed g G s Rollback in
@@ -83,8 +83,8 @@ Qed.
 
 Print Assumptions C06_rollback_restores.
 Print Assumptions C06_as_if_never_attempted.
-Print Assumptions C06_savepoint_database_restored.
-Print Assumptions C06_savepoint_partial.
+Print Assumptions C06_savepoint_restores.
+Print Assumptions C06_savepoint_as_if_never_attempted.
 Print Assumptions C06_example.
 Print Assumptions C06_no_state_left_in_memory.
 Print Assumptions C06_clear_connection_is_the_code.
